@@ -34,6 +34,7 @@ Inductive expr :=
 | ELambda (fid : nat) (params : list param) (body : expr) (p : pos)
 | EComp (curly : bool) (body : expr) (bodyv : expr) (cp : pos) (cls : list clause)
     (* list comprehension: body, bodyv ignored; dict comprehension: body = key, bodyv = value, cp = colon *)
+| ESlice (x : expr) (lo hi step : option expr) (p : pos)
 with arg :=
 | APos (e : expr)
 | ANamed (name : string) (e : expr)
@@ -121,6 +122,11 @@ Fixpoint find_fun_expr (fid : nat) (e : expr) {struct e} : option fundef :=
         first_some (fun c => match c with
                              | CFor t e _ => match find_fun_target fid t with Some d => Some d | None => find_fun_expr fid e end
                              | CIf c => find_fun_expr fid c end) cls end end
+  | ESlice x lo hi st _ =>
+      let o (e : option expr) := match e with Some e => find_fun_expr fid e | None => None end in
+      match find_fun_expr fid x with Some d => Some d | None =>
+      match o lo with Some d => Some d | None =>
+      match o hi with Some d => Some d | None => o st end end end
   end
 with find_fun_target (fid : nat) (t : target) {struct t} : option fundef :=
   match t with
